@@ -148,6 +148,73 @@ pub fn common_oracle(spec: &ServerSpec, run: &ServerRun, sv: &Value, out: &mut V
     }
 }
 
+/// Simpler variants of a server scenario (for minimisation).
+pub fn shrink_server(spec: &ServerSpec) -> Vec<ServerSpec> {
+    let mut out = vec![];
+    for i in 0..spec.faults.len() {
+        let mut s = spec.clone();
+        s.faults.remove(i);
+        out.push(s);
+    }
+    if spec.injections.len() > 1 {
+        for i in 0..spec.injections.len() {
+            let mut s = spec.clone();
+            s.injections.remove(i);
+            out.push(s);
+        }
+    }
+    if spec.policies.len() > 1 {
+        for i in 0..spec.policies.len() {
+            let mut s = spec.clone();
+            let comp = s.policies[i].comp;
+            if s.faults.iter().any(|f| f.comp == comp) || s.injections.iter().any(|j| format!("{:?}", j.action).contains(&format!("comp: {comp}"))) {
+                continue;
+            }
+            s.policies.remove(i);
+            out.push(s);
+        }
+    }
+    if !spec.auto_msgs {
+        let mut s = spec.clone();
+        s.auto_msgs = true;
+        s.explicit.retain(|d| !d.starts_with("msg"));
+        out.push(s);
+    }
+    if !spec.explicit.is_empty() {
+        let mut s = spec.clone();
+        s.explicit.truncate(spec.explicit.len() / 2);
+        out.push(s);
+        let mut s = spec.clone();
+        s.explicit.clear();
+        out.push(s);
+    }
+    for (i, ps) in spec.policies.iter().enumerate() {
+        if ps.template != 0 && ps.template_at.iter().all(|t| t.is_none()) {
+            let mut s = spec.clone();
+            s.policies[i].template = 0;
+            out.push(s);
+        }
+        if ps.inputs.iter().any(|x| *x != 0) {
+            let mut s = spec.clone();
+            s.policies[i].inputs = vec![0; ps.inputs.len()];
+            out.push(s);
+        }
+    }
+    if spec.concurrency.iter().any(|c| *c > 1) {
+        let mut s = spec.clone();
+        s.concurrency = vec![1; spec.n];
+        out.push(s);
+    }
+    out
+}
+
+fn shrink_server_value(spec: &Value) -> Vec<Value> {
+    match serde_json::from_value::<ServerSpec>(spec.clone()) {
+        Ok(s) => shrink_server(&s).into_iter().map(|x| serde_json::to_value(x).unwrap()).collect(),
+        Err(_) => vec![],
+    }
+}
+
 fn coord_hash(run: &ServerRun) -> u64 {
     let mut h = 0;
     for d in run.decisions.iter().filter(|d| !d.starts_with("msg")) {
@@ -238,6 +305,9 @@ impl Check for C13 {
             }
         }
         out
+    }
+    fn shrink(&self, spec: &Value) -> Vec<Value> {
+        shrink_server_value(spec)
     }
     fn replay(&self, spec: &Value) -> Vec<Violation> {
         match serde_json::from_value::<ServerSpec>(spec.clone()) {
@@ -775,6 +845,9 @@ impl Check for C15 {
         }
         out
     }
+    fn shrink(&self, spec: &Value) -> Vec<Value> {
+        shrink_server_value(spec)
+    }
     fn replay(&self, spec: &Value) -> Vec<Violation> {
         match serde_json::from_value::<ServerSpec>(spec.clone()) {
             Ok(s) => c15_oracle(&s, &server::run(&s)),
@@ -962,6 +1035,9 @@ impl Check for C17 {
             }
         }
         out
+    }
+    fn shrink(&self, spec: &Value) -> Vec<Value> {
+        shrink_server_value(spec)
     }
     fn replay(&self, spec: &Value) -> Vec<Violation> {
         match serde_json::from_value::<ServerSpec>(spec.clone()) {
